@@ -127,6 +127,55 @@ func (pe *predEval) evalSSA(p *packages.Package, fd *ast.FuncDecl, depth int) *p
 			cmps = append(cmps, cmpInfo{bo, ns})
 		}
 	}
+	// nothing but comparisons of the type name (and loop bounds, and other predicates applied to
+	// the same value) may decide the result: a further condition — on the vocabulary, say — makes
+	// the denotation smaller than the set of names collected below
+	var allowedCond func(v ssa.Value, d int) bool
+	allowedCond = func(v ssa.Value, d int) bool {
+		if d > 6 {
+			return false
+		}
+		if _, isC := boolConst(v); isC {
+			return true
+		}
+		switch x := v.(type) {
+		case *ssa.BinOp:
+			for i := range cmps {
+				if cmps[i].v == x {
+					return true
+				}
+			}
+			if b, ok := x.X.Type().Underlying().(*types.Basic); ok && b.Info()&types.IsInteger != 0 {
+				return true // loop bound
+			}
+		case *ssa.UnOp:
+			if x.Op == token.NOT {
+				return allowedCond(x.X, d+1)
+			}
+		case *ssa.Phi:
+			for _, e := range x.Edges {
+				if !allowedCond(e, d+1) {
+					return false
+				}
+			}
+			return true
+		case *ssa.Call:
+			if callee := x.Common().StaticCallee(); callee != nil && len(x.Common().Args) == 1 && x.Common().Args[0] == ssa.Value(other) {
+				return true
+			}
+		case *ssa.Extract:
+			if _, isNext := x.Tuple.(*ssa.Next); isNext && x.Index == 0 {
+				return true
+			}
+		}
+		return false
+	}
+	for _, b := range fn.Blocks {
+		if iff, ok := lastIf(b); ok && !allowedCond(iff.Cond, 0) {
+			res.problem = "a condition other than a comparison of the type name decides the result, at " + relPos(fn.Prog.Fset, iff.Pos())
+			return res
+		}
+	}
 	ff := computeFacts(fn)
 	trueCmp := func(s *factState) (*cmpInfo, bool) {
 		if s == nil {
